@@ -1,14 +1,270 @@
-//! C05 (placeholder, filled in later)
+//! C05: reopen / optimize / shrink_to_fit / backup / copy / rename / other file-backed variant
+//! preserve every query result.
+//!
+//! ops of a case:
+//!   new <variant>          variant = mmap | file | memory | any_mmap | any_file | any_memory
+//!   q … / t …              history steps (hint after ` | `: the observed result)
+//!   m reopen|optimize|shrink|backup|copy|rename|as_mmap|as_file|as_any_file|as_any_mmap
+//! output of an `m` line: `same` (deep dump before == after) | `diff` | `err` | `n/a`
+
 use crate::Out;
 use crate::crash::Reopener;
+use crate::crash::short;
+use crate::dump::Dump;
+use crate::dump::dump;
+use crate::guard::guarded;
+use crate::queries::Live;
+use crate::queries::Step;
+use crate::queries::gen_step;
 use crate::rng::Rng;
+use crate::store::wal_name;
+use agdb::Db;
+use agdb::DbAny;
+use agdb::DbError;
+use agdb::DbFile;
+use agdb::DbMemory;
 
-pub fn run_case(out: &mut Out, _ro: &mut Reopener, _case: u64, lines: &[String]) {
-    for l in lines {
-        out.emit(l, "bad-op", None);
-    }
+enum AnyDb {
+    Mmap(Db),
+    File(DbFile),
+    Mem(DbMemory),
+    Any(DbAny),
 }
 
-pub fn gen_case(_rng: &mut Rng, _tmp: &str, _max: u64) -> Vec<String> {
-    vec![]
+macro_rules! with_db {
+    ($self:expr, $db:ident, $body:expr) => {
+        match $self {
+            AnyDb::Mmap($db) => $body,
+            AnyDb::File($db) => $body,
+            AnyDb::Mem($db) => $body,
+            AnyDb::Any($db) => $body,
+        }
+    };
+}
+
+fn open(variant: &str, path: &str) -> Result<AnyDb, DbError> {
+    Ok(match variant {
+        "mmap" => AnyDb::Mmap(Db::new(path)?),
+        "file" => AnyDb::File(DbFile::new(path)?),
+        "memory" => AnyDb::Mem(DbMemory::new(path)?),
+        "any_mmap" => AnyDb::Any(DbAny::new_mapped(path)?),
+        "any_file" => AnyDb::Any(DbAny::new_file(path)?),
+        _ => AnyDb::Any(DbAny::new_memory(path)?),
+    })
+}
+
+fn is_memory(variant: &str) -> bool {
+    variant == "memory" || variant == "any_memory"
+}
+
+fn ddump(db: &AnyDb) -> (Dump, Live) {
+    with_db!(db, d, dump(d, true))
+}
+
+fn rm(path: &str) {
+    let _ = std::fs::remove_file(path);
+    let _ = std::fs::remove_file(wal_name(path));
+}
+
+pub fn run_case(out: &mut Out, ro: &mut Reopener, case: u64, lines: &[String]) {
+    let dir = ro.dir.clone();
+    let mut counter = 0;
+    let mut path = format!("{dir}/m0.agdb");
+    rm(&path);
+    let mut variant = "file".to_string();
+    let mut db: Option<AnyDb> = None;
+    let mut text = String::new();
+    let mut maint = 0;
+    let mut max_elems = 0;
+    let mut files: Vec<String> = vec![path.clone()];
+    for l in lines {
+        let line = out.ops.len();
+        let what = l.split(" | ").next().unwrap_or(l).to_string();
+        text.push_str(&what);
+        text.push('\n');
+        let toks: Vec<&str> = what.split(' ').collect();
+        match toks[0] {
+            "new" => {
+                let v = toks.get(1).copied().unwrap_or("");
+                if !["mmap", "file", "memory", "any_mmap", "any_file", "any_memory"].contains(&v) {
+                    out.emit(&what, "bad-op", None);
+                    continue;
+                }
+                variant = v.to_string();
+                db = open(&variant, &path).ok();
+                out.hist(&format!("variant_{variant}"));
+                out.emit(&what, if db.is_some() { "ok" } else { "err" }, None);
+            }
+            "m" => {
+                let op = toks.get(1).copied().unwrap_or("");
+                let Some(d) = db.take() else {
+                    out.emit(&what, "bad-op", None);
+                    continue;
+                };
+                let (before, _) = ddump(&d);
+                max_elems = max_elems.max(before.elements);
+                counter += 1;
+                let fresh = format!("{dir}/m{counter}.agdb");
+                rm(&fresh);
+                files.push(fresh.clone());
+                out.hist(&format!("maint_{op}"));
+                // every arm returns the database to continue with and the dump to compare
+                let res: Result<Option<(AnyDb, Dump)>, String> = (|| -> Result<Option<(AnyDb, Dump)>, String> {
+                    let e = |e: DbError| format!("{}/{}", e.category, e.ty);
+                    match op {
+                        "optimize" => {
+                            let mut d = d;
+                            with_db!(&mut d, x, x.optimize_storage()).map_err(e)?;
+                            let a = ddump(&d).0;
+                            Ok(Some((d, a)))
+                        }
+                        "shrink" => {
+                            let mut d = d;
+                            with_db!(&mut d, x, x.shrink_to_fit()).map_err(e)?;
+                            let a = ddump(&d).0;
+                            Ok(Some((d, a)))
+                        }
+                        "backup" => {
+                            with_db!(&d, x, x.backup(&fresh)).map_err(e)?;
+                            let a = {
+                                let b = open(if is_memory(&variant) { "memory" } else { "file" }, &fresh).map_err(e)?;
+                                ddump(&b).0
+                            };
+                            Ok(Some((d, a)))
+                        }
+                        "copy" => {
+                            let c = match &d {
+                                AnyDb::Mmap(x) => AnyDb::Mmap(x.copy(&fresh).map_err(e)?),
+                                AnyDb::File(x) => AnyDb::File(x.copy(&fresh).map_err(e)?),
+                                AnyDb::Mem(x) => AnyDb::Mem(x.copy(&fresh).map_err(e)?),
+                                AnyDb::Any(x) => AnyDb::Any(x.copy(&fresh).map_err(e)?),
+                            };
+                            drop(d);
+                            path = fresh.clone();
+                            let a = ddump(&c).0;
+                            Ok(Some((c, a)))
+                        }
+                        "rename" => {
+                            let mut d = d;
+                            with_db!(&mut d, x, x.rename(&fresh)).map_err(e)?;
+                            path = fresh.clone();
+                            let a = ddump(&d).0;
+                            Ok(Some((d, a)))
+                        }
+                        "reopen" | "as_mmap" | "as_file" | "as_any_file" | "as_any_mmap" => {
+                            let target = if op == "reopen" { variant.clone() } else { op[3..].to_string() };
+                            if is_memory(&variant) {
+                                if op != "reopen" {
+                                    return Ok(None);
+                                }
+                                // in-memory: persist through a backup file and load that
+                                with_db!(&d, x, x.backup(&fresh)).map_err(e)?;
+                                drop(d);
+                                path = fresh.clone();
+                            } else {
+                                drop(d);
+                            }
+                            let n = open(&target, &path).map_err(e)?;
+                            variant = target;
+                            let a = ddump(&n).0;
+                            Ok(Some((n, a)))
+                        }
+                        _ => Err("bad-op".to_string()),
+                    }
+                })();
+                out.evaluations += 1;
+                match res {
+                    Ok(Some((nd, after))) => {
+                        maint += 1;
+                        let same = after.text == before.text && after.read_errors.is_empty();
+                        if !same {
+                            out.violation(
+                                case,
+                                line,
+                                &format!("C05/result-changed/{op}"),
+                                "every query result must be the same after the maintenance operation",
+                                &short(&before.text),
+                                &short(&after.text),
+                            );
+                        }
+                        db = Some(nd);
+                        out.emit(&what, if same { "same" } else { "diff" }, None);
+                    }
+                    Ok(None) => {
+                        // not applicable to this variant: reopen what we had
+                        db = open(&variant, &path).ok();
+                        out.emit(&what, "n/a", None);
+                    }
+                    Err(e) if e == "bad-op" => {
+                        db = open(&variant, &path).ok();
+                        out.emit(&what, "bad-op", None);
+                    }
+                    Err(e) => {
+                        out.violation(
+                            case,
+                            line,
+                            &format!("C05/operation-failed/{op}"),
+                            "the maintenance operation must succeed on a healthy database",
+                            "ok",
+                            &e,
+                        );
+                        db = open(&variant, &path).ok();
+                        out.emit(&what, "err", None);
+                    }
+                }
+            }
+            "q" | "t" => {
+                let (Some(step), Some(d)) = (Step::parse(&what), db.as_mut()) else {
+                    out.emit(&what, "bad-op", None);
+                    continue;
+                };
+                for q in &step.queries {
+                    out.hist(q.kind());
+                }
+                let r = guarded(|| match with_db!(d, x, step.run(x)) {
+                    Ok(n) => format!("ok:{n}"),
+                    Err(_) => "err".to_string(),
+                })
+                .unwrap_or_else(|b| b.line());
+                out.emit(&format!("{what} | {r}"), &r, None);
+            }
+            _ => out.emit(&what, "bad-op", None),
+        }
+    }
+    drop(db);
+    for f in files {
+        rm(&f);
+    }
+    out.case_done(&text, maint > 0 && max_elems >= 3);
+}
+
+pub fn gen_case(rng: &mut Rng, tmp: &str, max: u64) -> Vec<String> {
+    let variants = ["mmap", "file", "memory", "any_mmap", "any_file", "any_memory"];
+    let variant = variants[rng.below(6) as usize];
+    let mut lines = vec![format!("new {variant}")];
+    // run the history on a scratch DbFile to keep ids/aliases valid
+    let path = format!("{tmp}/gen.agdb");
+    rm(&path);
+    {
+        let mut db = DbFile::new(&path).expect("gen db");
+        let mut live = Live::default();
+        let n = rng.range(4, max);
+        let ops = ["reopen", "optimize", "shrink", "backup", "copy", "rename", "as_mmap", "as_file", "as_any_file", "as_any_mmap"];
+        for i in 0..n {
+            let step = gen_step(rng, &live);
+            lines.push(step.line());
+            let _ = guarded(|| {
+                let _ = step.run(&mut db);
+            });
+            live = dump(&db, false).1;
+            if rng.chance(1, 5) || i + 1 == n {
+                lines.push(format!("m {}", ops[rng.below(ops.len() as u64) as usize]));
+                if rng.chance(1, 3) {
+                    lines.push(format!("m {}", ops[rng.below(ops.len() as u64) as usize]));
+                }
+            }
+        }
+    }
+    rm(&path);
+    lines
 }
